@@ -147,9 +147,9 @@ def succT : List Term → Prop
   | [.int x, .int s] => succ x s
   | _ => False
 
-/-- functor/3 -/
+/-- functor/3 (a compound term has at least one argument) -/
 def functorT : List Term → Prop
-  | [.app f as, name, arity] => name = .atom f ∧ arity = .int (Int.ofNat as.length)
+  | [.app f as, name, arity] => 0 < as.length ∧ name = .atom f ∧ arity = .int (Int.ofNat as.length)
   | [t, name, arity] => isAtomic t = true ∧ name = t ∧ arity = .int 0
   | _ => False
 
@@ -158,9 +158,9 @@ def argT : List Term → Prop
   | [.int n, .app _ as, a] => 1 ≤ n ∧ as.toList[(n - 1).toNat]? = some a
   | _ => False
 
-/-- =../2 -/
+/-- =../2 (a compound term has at least one argument) -/
 def univT : List Term → Prop
-  | [.app f as, l] => l = Term.list (.atom f :: as.toList)
+  | [.app f as, l] => 0 < as.length ∧ l = Term.list (.atom f :: as.toList)
   | [t, l] => isAtomic t = true ∧ l = Term.list [t]
   | _ => False
 
